@@ -26,6 +26,9 @@ class Cloning:
         data_cpy[k] = json.loads(json.dumps(v))
       elif isinstance(v, list) or isinstance(v, str):
         data_cpy[k] = deepcopy(v)
+      elif isinstance(v, gfapy.FieldArray):
+        # (multiple values of a header tag)
+        data_cpy[k] = gfapy.FieldArray(v.datatype, deepcopy(list(v)))
       elif isinstance(v, gfapy.OrientedLine):
         # oriented identifier which is not a reference (e.g. external of F)
         data_cpy[k] = gfapy.OrientedLine(v.name, v.orient)
